@@ -244,6 +244,9 @@ func run(r *mon.Run) {
 				}
 				g := r.Rand("grid", idx)
 				payload := g.Bytes(l)
+				if idx%3 == 0 && l > 0 {
+					payload = bytes.Repeat(g.Bytes(rs), l/rs+1)[:l] // every record identical
+				}
 				stream, digest := rmice.Encode(d.ref, payload, rs)
 				// cross-check with the implementation's own encoder (honest corpus must agree)
 				var ib bytes.Buffer
